@@ -211,11 +211,40 @@ class Repo:
 
     def func(self, module, qual, required=True):
         fs = self.funcs(module, qual)
+        if not fs and "." in qual:
+            # a closure `outer.inner` that was renamed, or lifted to a method / to
+            # module level: the ONE function that is new with respect to the reference
+            # tree and is called from `outer` stands for it
+            outer = qual.rsplit(".", 1)[0]
+            cands = self.new_helpers_called_from(module, outer)
+            if len(cands) == 1:
+                return cands[0]
         if not fs:
             if required:
                 raise AnalysisError(f"anchor vanished: {module}:{qual} not found")
             return None
         return fs[0]
+
+    def new_helpers_called_from(self, module, qual):
+        """Functions of `module` that do not exist on the reference tree and are
+        called (by name, or as self.<name>) from the function `qual`."""
+        from .canon_names import load_ref
+        known = set((load_ref().get("__functions__") or {}).get(module, []))
+        out = []
+        for fo in self.funcs(module, qual):
+            called = set()
+            for c in ast.walk(fo.node):
+                if isinstance(c, ast.Call):
+                    if isinstance(c.func, ast.Name):
+                        called.add(c.func.id)
+                    elif isinstance(c.func, ast.Attribute) and dotted(c.func.value) in ("self", "cls"):
+                        called.add(c.func.attr)
+            for g in self.all_funcs(module):
+                if g.qual in known or g is fo or g in out:
+                    continue
+                if g.name in called and (g.parent is None or g.parent is fo):
+                    out.append(g)
+        return out
 
     def all_funcs(self, module=None):
         for mn, m in self.modules.items():
